@@ -3,8 +3,8 @@
 A context is a dict of descriptor tokens that both this module (to build REAL objects) and the
 Lean model (Model/Validate.lean) understand:
 
-  y   : ok:<n> | dupidx:<n> | unsorted:<n> | empty | frame1:<n> | frame2:<n> | array:<n> | array2d:<n> | list:<n> | none | floatidx:<n>
-  X   : none | ok | shifted | shorter | unsorted | array
+  y   : ok:<n> | gapped:<n> | dupidx:<n> | unsorted:<n> | empty | frame1:<n> | frame2:<n> | array:<n> | array2d:<n> | list:<n> | none | floatidx:<n>
+  X   : none | ok | shifted | shorter | unsorted | array | interior | first | last | longer
   fh  : none | r:<ints> | a:<ints> | dup | empty | frac | str | float
   int-like (window_length, step_length, sp, initial_window ...): i:<v> | f:<p>/<q> | s | b | none
 Outcome of an entry point: "rej" (ValueError / TypeError / NotImplementedError), "ok", or the raw
@@ -24,6 +24,10 @@ def mk_y(tok, origin=0):
     vals = (np.arange(n, dtype="float64") * 0.5 + 1.0) % 7 + 1
     idx = np.arange(origin, origin + n, dtype="int64")
     if k == "ok":
+        return pd.Series(vals, index=pd.Index(idx))
+    if k == "gapped":         # a valid target whose (sorted, integer) index is irregular: two labels are skipped in the middle
+        idx = idx.copy()
+        idx[n // 2:] += 2
         return pd.Series(vals, index=pd.Index(idx))
     if k == "dupidx":
         idx = idx.copy()
@@ -82,6 +86,25 @@ def mk_X(tok, y):
         return pd.DataFrame(data, index=pd.Index(i))
     if tok == "array":
         return np.column_stack([data["u"], data["v"]])
+    i = np.asarray(base, dtype="int64").copy()
+    if tok == "interior":     # same length, same first and last label, still sorted; ONE inner label differs from y's
+        j = len(i) // 2
+        if len(i) >= 4 and i[j] - i[j - 1] > 1:
+            i[j - 1] += 1     # y's index has a gap here: X's gap is one step earlier (strictly increasing labels)
+        elif len(i) >= 3:
+            i[j] = i[j - 1]   # regular index: a time point of X is repeated (sorted in the non-strict sense)
+        else:
+            raise ValueError("no interior label")
+        return pd.DataFrame(data, index=pd.Index(i))
+    if tok == "first":
+        i[0] -= 1
+        return pd.DataFrame(data, index=pd.Index(i))
+    if tok == "last":
+        i[-1] += 1
+        return pd.DataFrame(data, index=pd.Index(i))
+    if tok == "longer":
+        i = np.append(i, i[-1] + 1)
+        return pd.DataFrame({"u": np.arange(n + 1) * 1.0, "v": np.arange(n + 1) * -2.0}, index=pd.Index(i))
     raise ValueError(tok)
 
 
@@ -262,10 +285,24 @@ def ep_reduce(c):
     box = {}
     y = mk_y(c["y"], c.get("origin", 0))
 
+    def regressor():
+        if c["scitype"] == "time-series-regressor":      # a regressor over panels of windows (as upstream's tests build one)
+            from sklearn.pipeline import make_pipeline
+            from sktime.transformations.panel.reduce import Tabularizer
+            return make_pipeline(Tabularizer(), LinearRegression())
+        return LinearRegression()
+
     def run():
-        box["f"] = make_reduction(LinearRegression(), strategy=c["strategy"], window_length=mk_int(c["wl"]), scitype=c["scitype"])
+        if c.get("via", "factory") == "factory":
+            box["f"] = make_reduction(regressor(), strategy=c["strategy"], window_length=mk_int(c["wl"]), scitype=c["scitype"])
+        else:
+            # the reduction classes constructed directly: the only reduction entry point that takes a step_length
+            import sktime.forecasting.compose as comp
+            name = {"direct": "Direct", "recursive": "Recursive", "multioutput": "Multioutput", "dirrec": "DirRec"}[c["strategy"]] + \
+                ("TimeSeries" if c["scitype"] == "time-series-regressor" else "Tabular") + "RegressionForecaster"
+            box["f"] = getattr(comp, name)(regressor(), window_length=mk_int(c["wl"]), step_length=mk_int(c["step"]))
         box["f"].fit(y, mk_X(c["X"], y), fh=mk_fh(c["fh"]))
-    return _outcome(run, (lambda: box["f"]) if True else None) if True else None
+    return _outcome(run, lambda: box["f"])
 
 
 def ep_composite(c):
